@@ -51,6 +51,13 @@ Definition esc_val (e : N) : option N :=
 Definition num_byte (c : N) : bool :=
   (c =? 43) || (c =? 45) || ((48 <=? c) && (c <=? 57)) || (c =? 46) || (c =? 101) || (c =? 69).
 
+(* what may follow a value for the value skipper to stop exactly behind it: the end of the
+   input or a byte that cannot continue a number; NUL is excluded too, because the C tests
+   strchr(numchars, c), which finds the terminator of numchars.  In a JSON text a value is
+   followed by a blank, a comma, a closing bracket or a closing brace. *)
+Definition value_end_ok (l : list N) : bool :=
+  match l with [] => true | c :: _ => negb (num_byte c || (c =? 0)) end.
+
 (* ---- printer ---- *)
 Definition render_item (i : sitem) : list N :=
   match i with
